@@ -11,27 +11,28 @@
 (* Ratios are 0 (holds) or 2000000000 (violated), printed as one "V" line  *)
 (* per event in the format of ManifTrace.                                  *)
 (***************************************************************************)
-EXTENDS Integers, Sequences, TLC, Json, IOUtils
+EXTENDS ApiMatrix, Integers, IOUtils
 
 Tr == ndJsonDeserialize(IOEnv.TRACE)
-M == INSTANCE ApiMatrix WITH cell <- [entry |-> "", g |-> "", sc |-> "", k |-> ""]
 
 Item(name, ok) == <<name, IF ok THEN 0 ELSE 2000000000>>
 Has(ev, f) == f \in DOMAIN ev
 
-InMatrix(ev) == /\ ev.entry \in M!Entries
-                /\ [entry |-> ev.entry, g |-> ev.g.k, sc |-> ev.sc, k |-> ev.k] \in M!Cells
-                /\ ev.canon = M!Canon(ev.entry)
+\* the cell an event claims to be; `cell` (the variable of ApiMatrix) takes these values along the trace
+NoCell == [entry |-> "", g |-> "", sc |-> "", k |-> ""]
+CellOf(ev) == IF Has(ev, "entry") /\ Has(ev, "g") /\ Has(ev, "sc") /\ Has(ev, "k")
+              THEN [entry |-> ev.entry, g |-> ev.g.k, sc |-> ev.sc, k |-> ev.k] ELSE NoCell
+InMatrix(ev) == CellOf(ev) \in Cells /\ ev.canon = Canon(ev.entry)
 Forwards(ev) == ~Has(ev, "exc") /\ Len(ev.res) > 0 /\ ev.res = ev.canon_res
 
-Verdict(ev) == IF ev.e = "api" /\ Has(ev, "res") /\ Has(ev, "canon_res")
+Verdict(ev) == IF ev.e = "api" /\ Has(ev, "res") /\ Has(ev, "canon_res") /\ Has(ev, "canon")
                THEN << Item("in_matrix", InMatrix(ev)), Item("forward", Forwards(ev)) >>
                ELSE << Item("unknown_event", FALSE) >>
 
 VARIABLE l
-Init == l = 1
-Next == /\ l <= Len(Tr) /\ l' = l + 1
-        /\ PrintT(ToJson(<<"V", l, -99999, -99999, 99999, Verdict(Tr[l])>>))
-Spec == Init /\ [][Next]_l
+TInit == l = 1 /\ cell = NoCell
+TNext == /\ l <= Len(Tr) /\ l' = l + 1 /\ cell' = CellOf(Tr[l])
+         /\ PrintT(ToJson(<<"V", l, -99999, -99999, 99999, Verdict(Tr[l])>>))
+TSpec == TInit /\ [][TNext]_<<l, cell>>
 TraceAccepted == TLCGet("stats").diameter - 1 = Len(Tr)
 =============================================================================
